@@ -3,6 +3,8 @@ package props
 import (
 	"bytes"
 	"fmt"
+	"golang.org/x/crypto/openpgp/armor"
+	"io"
 	"strings"
 	"testing"
 
@@ -162,7 +164,7 @@ func checkClearsignWith(c ClearsignCase, kr openpgp.EntityList, armored bool, kr
 
 var specC11 = Register(&Spec[ClearsignCase]{
 	Prop: "C11", Name: "clearsign",
-	Rule: "fault enumeration over clearsigned documents: C07 documents (1..3 paragraphs, LF) signed with clearsign.Encode by an RSA entity from a per-process pool; keyring = signer only / signer among others / others only / empty for the unmutated document; the same keyring OBJECT changed in place (to other keys, to no keys) between two reads of the same bytes - the second read must fail; then with the signer in the keyring EVERY single-byte substitution (XOR 0x01, XOR 0x20, 'A'), EVERY single-byte deletion, EVERY single-byte insertion ('A', blank, newline), EVERY truncation length, splices of a foreign paragraph before the armor, inside the signed text, between text and signature, inside the signature armor and after it, replacement of the signature by that of another key or of another text, and removal of the signature block; each character of the armor's CRC-24 line replaced by other base64 characters (must fail: the signature is damaged, as gpgv says too). Oracle: reading (ParagraphReader.All and Decoder.Decode) ends in an error, or succeeds with Signer() == signing entity in the keyring and paragraphs == those of the signed text; success with a nil signer is allowed only when the input no longer starts with the armor header; the unmutated document with the signer in the keyring must be accepted. Non-trivial: every faulted case; distinct by (bytes, keyring).",
+	Rule:  "fault enumeration over clearsigned documents: C07 documents (1..3 paragraphs, LF) signed with clearsign.Encode by an RSA entity from a per-process pool; keyring = signer only / signer among others / others only / empty for the unmutated document; the same keyring OBJECT changed in place (to other keys, to no keys) between two reads of the same bytes - the second read must fail; then with the signer in the keyring EVERY single-byte substitution (XOR 0x01, XOR 0x20, 'A'), EVERY single-byte deletion, EVERY single-byte insertion ('A', blank, newline), EVERY truncation length, splices of a foreign paragraph before the armor, inside the signed text, between text and signature, inside the signature armor and after it, replacement of the signature by that of another key or of another text, and removal of the signature block; the binary signature truncated at 8 lengths or with one byte flipped (every byte in the thorough tier, every 7th in quick) and armored afresh with a correct checksum, alone and under an altered text; each character of the armor's CRC-24 line replaced by other base64 characters (must fail: the signature is damaged, as gpgv says too). Oracle: reading (ParagraphReader.All and Decoder.Decode) ends in an error, or succeeds with Signer() == signing entity in the keyring and paragraphs == those of the signed text; success with a nil signer is allowed only when the input no longer starts with the armor header; the unmutated document with the signer in the keyring must be accepted. Non-trivial: every faulted case; distinct by (bytes, keyring).",
 	Check: checkClearsign,
 })
 
@@ -289,9 +291,9 @@ func enumerateClearsignFaults(b SignBase, thorough bool, yield func(ClearsignCas
 			"armor:hash-header-removed":   []byte(strings.Replace(s, "Hash: SHA256\n", "", 1)),
 			// the armor line made unparsable for the OpenPGP decoder but not for a deb822 reader, signature dropped:
 			// nothing here is signed any more, so nothing of it may be accepted under the armor header
-			"armor:header-junk+sig-removed":     []byte(strings.Replace(s[:sigStart], "-----BEGIN PGP SIGNED MESSAGE-----\n", "-----BEGIN PGP SIGNED MESSAGE-----: x\n", 1)),
-			"armor:header-junk+sig-commented":   []byte(strings.Replace(s[:sigStart], "-----BEGIN PGP SIGNED MESSAGE-----\n", "-----BEGIN PGP SIGNED MESSAGE-----: x\n", 1) + "#" + strings.Replace(s[sigStart:], "\n", "\n#", -1) + "\n"),
-			"armor:header-junk+sig-as-field":    []byte(strings.Replace(s[:sigStart], "-----BEGIN PGP SIGNED MESSAGE-----\n", "-----BEGIN PGP SIGNED MESSAGE-----: x\n", 1) + "\nSig: x\n " + strings.Replace(strings.TrimRight(s[sigStart:], "\n"), "\n", "\n ", -1) + "\n"),
+			"armor:header-junk+sig-removed":   []byte(strings.Replace(s[:sigStart], "-----BEGIN PGP SIGNED MESSAGE-----\n", "-----BEGIN PGP SIGNED MESSAGE-----: x\n", 1)),
+			"armor:header-junk+sig-commented": []byte(strings.Replace(s[:sigStart], "-----BEGIN PGP SIGNED MESSAGE-----\n", "-----BEGIN PGP SIGNED MESSAGE-----: x\n", 1) + "#" + strings.Replace(s[sigStart:], "\n", "\n#", -1) + "\n"),
+			"armor:header-junk+sig-as-field":  []byte(strings.Replace(s[:sigStart], "-----BEGIN PGP SIGNED MESSAGE-----\n", "-----BEGIN PGP SIGNED MESSAGE-----: x\n", 1) + "\nSig: x\n " + strings.Replace(strings.TrimRight(s[sigStart:], "\n"), "\n", "\n ", -1) + "\n"),
 		}
 		// signature swapped for one by another key / over another text
 		if otherSigned, err := signDoc(b.Doc.Text, other); err == nil {
@@ -303,6 +305,44 @@ func enumerateClearsignFaults(b SignBase, thorough bool, yield func(ClearsignCas
 			cases["sig:over-other-text"] = []byte(s[:sigStart] + os[strings.Index(os, "-----BEGIN PGP SIGNATURE-----"):])
 			// ... and the other way round: other text, this signature
 			cases["text:other-text-this-sig"] = []byte(os[:strings.Index(os, "-----BEGIN PGP SIGNATURE-----")] + s[sigStart:])
+		}
+		// damage UNDER a valid armor: the binary signature is cut short or has a byte flipped and is
+		// then armored afresh (correct CRC-24), so only the OpenPGP layer can notice - alone, and
+		// together with an altered signed text
+		if blk, err := armor.Decode(strings.NewReader(s[sigStart:])); err == nil {
+			if bin, err := io.ReadAll(blk.Body); err == nil && len(bin) > 8 {
+				rearmor := func(b []byte) string {
+					var out bytes.Buffer
+					w, err := armor.Encode(&out, "PGP SIGNATURE", nil)
+					if err != nil {
+						return ""
+					}
+					w.Write(b)
+					w.Close()
+					return out.String() + "\n"
+				}
+				forgedText := strings.Replace(s[:sigStart], "\n\n", "\n\nEvil: yes\n", 1)
+				for _, k := range []int{0, 1, 2, 3, 10, len(bin) / 2, len(bin) - 10, len(bin) - 1} {
+					if k < 0 || k >= len(bin) {
+						continue
+					}
+					if a := rearmor(bin[:k]); a != "" {
+						cases[fmt.Sprintf("rearmored:truncated@%d", k)] = []byte(s[:sigStart] + a)
+						cases[fmt.Sprintf("rearmored:truncated@%d+forged-text", k)] = []byte(forgedText + a)
+					}
+				}
+				step := 1
+				if !thorough {
+					step = 7
+				}
+				for i := 0; i < len(bin); i += step {
+					fl := append([]byte{}, bin...)
+					fl[i] ^= 0x01
+					if a := rearmor(fl); a != "" {
+						cases[fmt.Sprintf("rearmored:flip@%03d", i)] = []byte(s[:sigStart] + a)
+					}
+				}
+			}
 		}
 		names := []string{}
 		for k := range cases {
